@@ -46,6 +46,12 @@ def preload():
 
 def draw_game(st, like=None):
     q0, q1 = st.int_range(1, 5), st.int_range(1, 5)
+    if st.draw(5) == 0:
+        # between the small games and the pool-sized ones (>= 10 questions): 6..9 questions on a side, where the
+        # sequential enumeration of the classical value runs over several hundred strategies
+        m = st.weighted([(9, 4), (8, 2), (7, 1), (6, 1)])  # 2**9 = 512 strategies: more than one block of 256
+        o = m + st.draw(4)
+        q0, q1 = (m, o) if st.draw(2) else (o, m)
     if like is not None:
         q0, q1 = like["shape"]
     rng = st.nprng()
@@ -141,8 +147,10 @@ def run(cs, tier, run_index):
             return big[::2, ::2]
         return a.copy()
 
+    current = {"prob": prob, "pred": pred}  # the game the object holds now (changes when the caller changes the game)
+
     def build():
-        p, f = contain(prob, forms[0]), contain(pred, forms[1])
+        p, f = contain(current["prob"], forms[0]), contain(current["pred"], forms[1])
         return (X.XORGame(p, f, reps, tol_value) if tol_given else X.XORGame(p, f, reps)), (p, f)
 
     try:
@@ -173,28 +181,7 @@ def run(cs, tier, run_index):
         gc.collect()
         res.probe("ephemeral_object_before_history")
 
-    # reference models (single-shot)
-    gp, gv = models.xor_to_general(prob, pred)
-    cl1 = models.xor_classical_bf(prob, pred)
-    # the product game's classical value is enumerable only when its smaller strategy set is small
     small_product = reps == 1 or (2**reps) ** (min(q0, q1) ** reps) <= 600
-    if small_product:
-        pp, pv = models.product_game(gp, gv, reps)
-        cl_model = models.classical_value_bf(pp, pv) if reps > 1 else cl1
-    else:
-        pp = pv = None
-        cl_model = cl1**reps  # playing the optimal single-shot strategy r times: a lower bound on the product game's classical value
-    if reps == 1:
-        res.checks_workload += 1
-        lit = models.classical_value_bf(gp, gv)
-        if abs(lit - cl1) > 1e-9:
-            raise AssertionError("reference models disagree: %r vs %r" % (lit, cl1))
-    bracket = models.xor_bias_bracket(prob, pred)
-    if bracket is not None and bracket[1] - bracket[0] > 1e-4:
-        res.failed("model:bracket_too_wide")
-        bracket = None
-    ns_model = None
-
     ops_s = cs.s("ops")
     n_ops = ops_s.int_range(3, 6)
     names = []
@@ -207,105 +194,177 @@ def run(cs, tier, run_index):
         if nm == "classical" and not small_product:
             nm = "quantum"
         names.append(nm)
-    pristine, vals = {}, {}
-    for k, nm in enumerate(names):
-        if nm == "convert_and_edit":
-            # the caller converts the game, checks the result, and then uses the returned object as its own:
-            # scribbling on it must not reach the XOR game (or any later conversion)
-            try:
-                conv = game.to_nonlocal_game()
-                cp, cv = np.asarray(conv.prob_mat), np.asarray(conv.pred_mat)
-            except Exception as e:
-                res.violate("C08.val.same_as_game", why="to_nonlocal_game raised", exc=type(e).__name__, msg=str(e)[:200], position=k, history=names[:k + 1], **meta)
-                break
-            res.checks_sim += 1
-            res.probe("converted_game_edited_by_caller")
-            if reps == 1:
-                res.checks_workload += 1
-                if cv.shape != gv.shape or not np.allclose(cv, gv) or not np.allclose(cp, gp):
-                    res.violate("C08.val.same_as_game", why="converted game is not V(a,b|x,y) = [f(x,y) = a xor b] with the same distribution", position=k, history=names[:k + 1], **meta)
-            # only the predicate tensor is edited: it is built by the conversion, whereas the distribution may
-            # legitimately be the XOR game's own array (NonlocalGame keeps what it is given by reference)
-            how = ops_s.draw(3)
-            try:
-                if how == 0:
-                    conv.pred_mat[-1, ...] = 0
-                elif how == 1:
-                    conv.pred_mat[...] = 1 - np.asarray(conv.pred_mat)
-                else:
-                    conv.pred_mat[0, ...] = 1
-            except (ValueError, TypeError):
-                pass  # read-only result: nothing to scribble on
-            del conv
-            res.log.add("op", k, nm, how)
-            continue
-        if interloper is not None and ops_s.draw(2):
-            call_value(op_fn(interloper, nm), res, nm + "(other object)")
-        out = call_value(op_fn(game, nm), res, nm)
-        res.log.add("op", k, nm, out[1] if out[0] == "ok" else out[:2])
-        res.checks_sim += 1
-        if not (_same(game.prob_mat, shadow[0]) and _same(game.pred_mat, shadow[1]) and _same(caller[0], caller_shadow[0]) and _same(caller[1], caller_shadow[1]) and game.reps == reps):
-            res.violate("C08.hist.order", why="XOR game object or caller arrays changed", after=nm, position=k, history=names[:k + 1], **meta)
-            break
-        if out[0] != "ok":
-            continue
-        v = out[1]
-        if k == 0:
-            pristine[nm] = v
+    all_vals = {}
+
+    def phase(prob, pred, names, offset):
+        """Judge a stretch of the history during which the game object holds (prob, pred)."""
+        # reference models (single-shot)
+        gp, gv = models.xor_to_general(prob, pred)
+        cl1 = models.xor_classical_bf(prob, pred)
+        # the product game's classical value is enumerable only when its smaller strategy set is small
+        if small_product:
+            pp, pv = models.product_game(gp, gv, reps)
+            cl_model = models.classical_value_bf(pp, pv) if reps > 1 else cl1
         else:
-            if nm not in pristine:
-                with pristine_library_state():
-                    g2, _ = build()
-                    o2 = call_value(op_fn(g2, nm), res, nm + "(pristine)")
-                pristine[nm] = o2[1] if o2[0] == "ok" else None
-            if pristine[nm] is not None:
-                res.checks_sim += 1
-                if abs(pristine[nm] - v) > SAME:
-                    res.violate("C08.hist.order", op=nm, position=k, history=names[:k + 1], after_history=v, pristine=pristine[nm], **meta)
-        vals.setdefault(nm, []).append(v)
-        if nm == "classical":
-            res.checks_workload += 1
-            if abs(v - cl_model) > 1e-9:
-                res.violate("C08.val.classical", got=v, expected=cl_model, **meta)
-        elif nm == "nonsignaling":
-            if ns_model is None:
-                ns_model = models.nonsignaling_value_lp(pp, pv)
-            if ns_model is not None:
-                res.checks_workload += 1
-                if abs(v - ns_model) > TAU:
-                    res.violate("C08.val.same_as_game", why="non-signaling value differs from the LP value of the converted game", got=v, expected=ns_model, **meta)
-        elif nm == "quantum" and bracket is not None:
-            lo = (0.5 + 0.5 * bracket[0]) ** reps
-            hi = (0.5 + 0.5 * bracket[1]) ** reps
-            res.probe("quantum_bracketed")
-            res.checks_workload += 2
-            if v < lo - TAU:
-                res.violate("C08.val.tsirelson_lo" if reps == 1 else "C08.val.reps_power", why="below the value achieved by explicit unit vectors" + ("" if reps == 1 else " raised to the r-th power"), got=v, achieved=lo, **meta)
-            if v > hi + TAU:
-                res.violate("C08.val.tsirelson_hi" if reps == 1 else "C08.val.reps_power", why="above the dual-feasible certificate" + ("" if reps == 1 else " raised to the r-th power"), got=v, certificate=hi, **meta)
-    # cross-clause relations over everything seen
-    if "quantum" in vals:
-        qv = vals["quantum"]
-        res.checks_workload += 1
-        if min(qv) < cl_model - TAU:
-            res.violate("C08.ord.cl_le_q", quantum=min(qv), classical=cl_model, **meta)
+            pp = pv = None
+            cl_model = cl1**reps  # playing the optimal single-shot strategy r times: a lower bound on the product game's classical value
         if reps == 1:
             res.checks_workload += 1
-            if max(qv) - 0.5 > KG * (cl1 - 0.5) + TAU:
-                res.violate("C08.ord.grothendieck", quantum=max(qv), classical=cl1, **meta)
-            if max(qv) > cl1 + 1e-3:
-                res.probe("quantum_gap")
-        if "npa1" in vals and reps == 1:
-            res.probe("npa1_compared")
+            lit = models.classical_value_bf(gp, gv)
+            if abs(lit - cl1) > 1e-9:
+                raise AssertionError("reference models disagree: %r vs %r" % (lit, cl1))
+        bracket = models.xor_bias_bracket(prob, pred)
+        if bracket is not None and bracket[1] - bracket[0] > 1e-4:
+            res.failed("model:bracket_too_wide")
+            bracket = None
+        ns_model = None
+
+        pristine, vals = {}, {}
+        for k, nm in enumerate(names):
+            if nm == "convert_and_edit":
+                # the caller converts the game, checks the result, and then uses the returned object as its own:
+                # scribbling on it must not reach the XOR game (or any later conversion)
+                try:
+                    conv = game.to_nonlocal_game()
+                    cp, cv = np.asarray(conv.prob_mat), np.asarray(conv.pred_mat)
+                except Exception as e:
+                    res.violate("C08.val.same_as_game", why="to_nonlocal_game raised", exc=type(e).__name__, msg=str(e)[:200], position=k, history=names[:k + 1], **meta)
+                    break
+                res.checks_sim += 1
+                res.probe("converted_game_edited_by_caller")
+                if reps == 1:
+                    res.checks_workload += 1
+                    if cv.shape != gv.shape or not np.allclose(cv, gv) or not np.allclose(cp, gp):
+                        res.violate("C08.val.same_as_game", why="converted game is not V(a,b|x,y) = [f(x,y) = a xor b] with the same distribution", position=k, history=names[:k + 1], **meta)
+                # only the predicate tensor is edited: it is built by the conversion, whereas the distribution may
+                # legitimately be the XOR game's own array (NonlocalGame keeps what it is given by reference)
+                how = ops_s.draw(3)
+                try:
+                    if how == 0:
+                        conv.pred_mat[-1, ...] = 0
+                    elif how == 1:
+                        conv.pred_mat[...] = 1 - np.asarray(conv.pred_mat)
+                    else:
+                        conv.pred_mat[0, ...] = 1
+                except (ValueError, TypeError):
+                    pass  # read-only result: nothing to scribble on
+                del conv
+                res.log.add("op", k, nm, how)
+                continue
+            if interloper is not None and ops_s.draw(2):
+                call_value(op_fn(interloper, nm), res, nm + "(other object)")
+            out = call_value(op_fn(game, nm), res, nm)
+            res.log.add("op", k, nm, out[1] if out[0] == "ok" else out[:2])
+            res.checks_sim += 1
+            if not (_same(game.prob_mat, shadow[0]) and _same(game.pred_mat, shadow[1]) and _same(caller[0], caller_shadow[0]) and _same(caller[1], caller_shadow[1]) and game.reps == reps):
+                res.violate("C08.hist.order", why="XOR game object or caller arrays changed", after=nm, position=k, history=names[:k + 1], **meta)
+                break
+            if out[0] != "ok":
+                continue
+            v = out[1]
+            if k == 0 and offset == 0:
+                pristine[nm] = v
+            else:
+                if nm not in pristine:
+                    with pristine_library_state():
+                        g2, _ = build()
+                        o2 = call_value(op_fn(g2, nm), res, nm + "(pristine)")
+                    pristine[nm] = o2[1] if o2[0] == "ok" else None
+                if pristine[nm] is not None:
+                    res.checks_sim += 1
+                    if abs(pristine[nm] - v) > SAME:
+                        res.violate("C08.hist.order", op=nm, position=k, history=names[:k + 1], after_history=v, pristine=pristine[nm], **meta)
+            vals.setdefault(nm, []).append(v)
+            if nm == "classical":
+                res.checks_workload += 1
+                if abs(v - cl_model) > 1e-9:
+                    res.violate("C08.val.classical", got=v, expected=cl_model, **meta)
+            elif nm == "nonsignaling":
+                if ns_model is None:
+                    ns_model = models.nonsignaling_value_lp(pp, pv)
+                if ns_model is not None:
+                    res.checks_workload += 1
+                    if abs(v - ns_model) > TAU:
+                        res.violate("C08.val.same_as_game", why="non-signaling value differs from the LP value of the converted game", got=v, expected=ns_model, **meta)
+            elif nm == "quantum" and bracket is not None:
+                lo = (0.5 + 0.5 * bracket[0]) ** reps
+                hi = (0.5 + 0.5 * bracket[1]) ** reps
+                res.probe("quantum_bracketed")
+                res.checks_workload += 2
+                if v < lo - TAU:
+                    res.violate("C08.val.tsirelson_lo" if reps == 1 else "C08.val.reps_power", why="below the value achieved by explicit unit vectors" + ("" if reps == 1 else " raised to the r-th power"), got=v, achieved=lo, **meta)
+                if v > hi + TAU:
+                    res.violate("C08.val.tsirelson_hi" if reps == 1 else "C08.val.reps_power", why="above the dual-feasible certificate" + ("" if reps == 1 else " raised to the r-th power"), got=v, certificate=hi, **meta)
+        # cross-clause relations over everything seen
+        if "quantum" in vals:
+            qv = vals["quantum"]
             res.checks_workload += 1
-            if abs(max(qv) - min(vals["npa1"])) > TAU or abs(min(qv) - max(vals["npa1"])) > TAU:
-                res.violate("C08.val.npa1", quantum=qv, npa1=vals["npa1"], **meta)
-    if "npa1" in vals:
-        res.checks_workload += 1
-        if min(vals["npa1"]) < cl_model - TAU:
-            res.violate("C08.ord.cl_le_q", why="NPA level 1 of the converted game below the classical value", npa1=min(vals["npa1"]), classical=cl_model, **meta)
-        if bracket is not None and reps == 1 and min(vals["npa1"]) < 0.5 + 0.5 * bracket[0] - TAU:
-            res.violate("C08.val.npa1", why="NPA level 1 below the value achieved by explicit unit vectors", npa1=min(vals["npa1"]), achieved=0.5 + 0.5 * bracket[0], **meta)
+            if min(qv) < cl_model - TAU:
+                res.violate("C08.ord.cl_le_q", quantum=min(qv), classical=cl_model, **meta)
+            if reps == 1:
+                res.checks_workload += 1
+                if max(qv) - 0.5 > KG * (cl1 - 0.5) + TAU:
+                    res.violate("C08.ord.grothendieck", quantum=max(qv), classical=cl1, **meta)
+                if max(qv) > cl1 + 1e-3:
+                    res.probe("quantum_gap")
+            if "npa1" in vals and reps == 1:
+                res.probe("npa1_compared")
+                res.checks_workload += 1
+                if abs(max(qv) - min(vals["npa1"])) > TAU or abs(min(qv) - max(vals["npa1"])) > TAU:
+                    res.violate("C08.val.npa1", quantum=qv, npa1=vals["npa1"], **meta)
+        if "npa1" in vals:
+            res.checks_workload += 1
+            if min(vals["npa1"]) < cl_model - TAU:
+                res.violate("C08.ord.cl_le_q", why="NPA level 1 of the converted game below the classical value", npa1=min(vals["npa1"]), classical=cl_model, **meta)
+            if bracket is not None and reps == 1 and min(vals["npa1"]) < 0.5 + 0.5 * bracket[0] - TAU:
+                res.violate("C08.val.npa1", why="NPA level 1 below the value achieved by explicit unit vectors", npa1=min(vals["npa1"]), achieved=0.5 + 0.5 * bracket[0], **meta)
+        for nm_, vs_ in vals.items():
+            all_vals.setdefault(nm_, []).extend(vs_)
+        return cl1, cl_model, bracket
+
+    cl1, cl_model, bracket = phase(prob, pred, names, 0)
+    if ops_s.draw(3) == 0 and not res.violations:
+        # the caller changes the game it owns - edits the arrays it constructed the object from, or assigns new
+        # ones to the object's attributes - and goes on using the object.  Whatever the object now holds (it
+        # may or may not have copied its input) is the game its values must belong to.
+        how = ops_s.draw(3)
+        rng2 = ops_s.nprng()
+        new_p = rng2.random((q0, q1)) ** 2 + 1e-3
+        new_p = new_p / new_p.sum()
+        new_f = np.asarray(caller[1]).copy()
+        ix = (int(rng2.integers(0, q0)), int(rng2.integers(0, q1)))
+        new_f[ix] = 1 - new_f[ix]  # 0 <-> 1 in whatever dtype the predicate has (bool: logical not)
+        try:
+            if how == 0:
+                caller[0][...] = new_p
+            elif how == 1:
+                caller[1][...] = new_f
+            else:
+                game.prob_mat = new_p.copy()
+                game.pred_mat = new_f.copy()
+        except (ValueError, TypeError):
+            how = -1
+        if how >= 0:
+            res.probe("caller_changes_the_game")
+            cur_p = np.array(np.asarray(game.prob_mat), dtype=float)
+            cur_f = np.array(np.asarray(game.pred_mat))
+            shadow = [np.array(game.prob_mat, copy=True), np.array(game.pred_mat, copy=True)]
+            caller_shadow = [np.array(np.asarray(caller[0]), copy=True), np.array(np.asarray(caller[1]), copy=True)]
+            current["prob"], current["pred"] = cur_p, cur_f
+            names2 = []
+            for _ in range(ops_s.int_range(2, 3)):
+                nm = ops_s.weighted([("quantum", 4), ("classical", 3), ("npa1", 2), ("nonsignaling", 1)])
+                if nm == "nonsignaling" and (q0 * q1) ** reps * 4**reps > 450:
+                    nm = "quantum"
+                if nm == "npa1" and 1 + q0**reps * (2**reps - 1) + q1**reps * (2**reps - 1) > 40:
+                    nm = "quantum"
+                if nm == "classical" and not small_product:
+                    nm = "quantum"
+                names2.append(nm)
+            meta["caller_edit"] = ["prob array in place", "pred array in place", "attributes re-assigned"][how]
+            phase(cur_p, cur_f, names2, len(names))
+            names = names + ["caller_edit"] + names2
+    vals = all_vals
     distinct = set(names)
     repeated = len(names) > len(distinct)
     if repeated:
